@@ -12,12 +12,32 @@ RULE = (
     "state changes zero / positive / negative, state vectors shorter and longer than the state model; observed: float bits of "
     "traversal_cost, cost_estimate (also via SearchInstance::estimate_traversal_cost), access_cost and edge_cost for the forward and the "
     "reverse edge pair, and (access_cost, traversal_cost, total_cost()) of EdgeTraversal::forward_traversal / reverse_traversal on a "
-    "SearchInstance. 502 deterministic boundary cases first (every rate shape x state change x aggregation x weight, exact-zero and "
+    "SearchInstance. 513 deterministic boundary cases first (every rate shape x state change x aggregation x weight, exact-zero and "
     "cancelling totals, totals below MIN_COST, surcharge hit/miss x weight x aggregation, 1-8 features with defaults, zero-sum weights, "
-    "short vectors, Mul sign patterns, the D-TURNFEE witness, the float-absorption inputs), then random. I = implementation bits, M = Gallina model in binary64 "
+    "short vectors, Mul sign patterns, the D-TURNFEE witness, the float-absorption inputs, tiny weights / rates giving positive totals "
+    "BELOW MIN_COST, which must be charged unchanged), then random (one case in ten with all weights scaled by 2^-40). I = implementation bits, M = Gallina model in binary64 "
     "(bit-exact), S = specification in exact rationals judging the implementation's output (finite, > 0 / >= 0, Err exactly when a "
     "vector is too short, value within 1e-9 x forward-error scale of the exact sum/product, access + traversal share = edge total). "
     "non-trivial = edge_cost is returned, is not the floor and is not the plain state change of a single feature; distinct by case")
+
+RULE_SEQ = (
+    "call SEQUENCES on ONE CostModel instance (2-10 calls: access_cost / traversal_cost / edge_cost with and without a pair / "
+    "cost_estimate, interleaved, most of them sharing the next edge while the previous edge varies) over configurations with "
+    "edge-pair network rates for several incoming edges of one junction; 58 deterministic sequences first (the C07-15 junction "
+    "witness, every ordered (access of pair x; edge_cost of pair y) x weight x aggregation), then random configurations of the "
+    "cost stream with a turn table added. I = float bits of every call, M = the (pure) Gallina model call by call, S = every call "
+    "judged for its OWN arguments by the rational specification (= what a fresh model returns). non-trivial = an edge_cost with a "
+    "pair follows an access_cost of a different pair with the same next edge; distinct by (configuration, calls)")
+RULE_BUILDER = (
+    "network rates built by the REAL NetworkCostRateBuilder from CSV files the harness writes (leaf builders read from configuration "
+    "JSON {type: traversal_lookup|access_lookup, cost_input_file}, `combined` assembled from its members, nesting <= 3, 0-22 tables, "
+    "overlapping keys in most cases, duplicate rows in one file, missing files); observed on the built rate: traversal_cost of every "
+    "probed edge, access_cost of every probed pair, and CostModel::edge_cost of a one-feature model (weight w, raw rate) for every "
+    "probed pair. 42 deterministic cases first (the C07-14 witness flat and nested, 2-3 traversal x 2-3 access tables sharing keys x "
+    "nesting x weight, single / disjoint / empty / missing). M = Model/Cost.v nbuild + the cost model in binary64, S = each surcharge "
+    "is the SUM over all configured tables (last row of a file wins inside that file), charge = floored w*d + w*(edge + turn "
+    "surcharge). non-trivial = a probed edge or pair is listed by >= 2 tables; distinct by builder tree")
+
 
 def classify(case, i, m, s):
     return None
@@ -41,7 +61,7 @@ def run(chk):
         "SPECIFICATION coq/Model/CostSpec.v (sums/products over features, rates as affine maps, surcharges as sums of table hits, "
         "floor_pos, clip0) and the judge of coq/Model/CostRun.v (tolerance 1e-9 x the expression on absolute values)",
         "hand-written model coq/Model/Cost.v (tied bit for bit by the correspondence stream, all entry points and EdgeTraversal)",
-        "translator/tr_cost.py (MIN_COST, comparison operators and substitutes of the two clamps, regenerated from the source on every "
+        "translator/tr_cost.py (MIN_COST; comparison operator, compared constant and substitute of the two clamps, regenerated from the source on every "
         "run; fails closed; its output is executed in binary64 against the real functions by the stream)",
         "translator/tr_costrates.py + translator/rsparse.py (the variants of VehicleCostRate / NetworkCostRate / CostAggregation and the "
         "arms of map_value, traversal_cost, access_cost, agg, agg_iter compiled to coq/Gen/CostRates.v on every run; fails closed; "
@@ -95,10 +115,22 @@ def run(chk):
                       for x in probe.get("k_absorb", [])],
             "serde_facts": {k: v for k, v in probe.items() if k != "k_absorb"}}
 
-    n = 1500 if quick else 24000
-    r = vf.run_stream(binp, "cost", n, chk.seed, os.path.join(chk.outdir, "cost"), extra=extra, replay=chk.replay)
-    chk.add_stream(r, RULE)
-    vf.compare(chk, r, classify=classify, binpath=binp, extra=extra)
+    only = None
+    if chk.replay:
+        try:
+            only = json.load(open(chk.replay)).get("stream")
+        except Exception:  # noqa
+            only = None
+        if only not in ("cost", "seq", "builder"):
+            only = "cost"
+    for stream, rule, n in (("cost", RULE, 1500 if quick else 20000),
+                            ("seq", RULE_SEQ, 400 if quick else 5000),
+                            ("builder", RULE_BUILDER, 400 if quick else 5000)):
+        if only not in (None, stream):
+            continue
+        r = vf.run_stream(binp, stream, n, chk.seed, os.path.join(chk.outdir, stream), extra=extra, replay=chk.replay)
+        chk.add_stream(r, rule)
+        vf.compare(chk, r, classify=classify, binpath=binp, extra=extra)
 
     if chk.broken_obligation:
         # a proof obligation no longer checks (Gen/CostConsts.v is regenerated from the source, so a changed clamp lands
